@@ -25,11 +25,11 @@ FLOORS = {"quick": {"transfers_checked": 3000, "faults_injected": 150, "sessions
 
 
 def gen_cases(tier, seed):
-    for i in range(120 if tier == "quick" else 2500):
+    for i in range(400 if tier == "quick" else 5000):
         yield {"kind": "direct", "seed": "%d:%d" % (seed, i)}
-    for i in range(6 if tier == "quick" else 60):
+    for i in range(10 if tier == "quick" else 100):
         yield {"kind": "fault", "seed": "%d:f%d" % (seed, i)}
-    for i in range(60 if tier == "quick" else 1500):
+    for i in range(200 if tier == "quick" else 3000):
         yield {"kind": "session", "seed": "%d:s%d" % (seed, i)}
 
 
